@@ -61,7 +61,9 @@ def _migrate_v1_to_v2(root_directory):
                     f"move it so that the currently configured workspace directory "
                     f"{current_workspace} can be moved to {new_workspace}."
                 )
-            os.replace(current_workspace, new_workspace)
+            # A project without jobs may never have created its workspace.
+            if os.path.exists(current_workspace):
+                os.replace(current_workspace, new_workspace)
         del cfg["workspace_dir"]
 
     # Delete project name from config and store in project doc if non-default.
